@@ -478,6 +478,10 @@ func (fr *Frame) typeAssert(x *ssa.TypeAssert, h Heap) Heap {
 	} else {
 		ok = g.define(fr.prefix+"ok_"+x.Name(), "Bool", fmt.Sprintf("(= (i_tag %s) %s)", iv, g.typeTag(x.AssertedType)))
 		v = g.define(fr.prefix+x.Name(), g.sortOf(x.AssertedType), ite(ok, g.unbox(x.AssertedType, fmt.Sprintf("(i_val %s)", iv)), g.zero(x.AssertedType)))
+		if isString(x.AssertedType) {
+			// a boxed string is a string: its length is a length (same bound as slices)
+			fr.assume(and(g.ile(g.ilit(0), "(slen "+v+")"), g.ile("(slen "+v+")", g.maxLen())), "type facts of asserted string")
+		}
 	}
 	if x.CommaOk {
 		fr.vals[x] = &Val{Tup: []*Val{fr.wrap(v, x.AssertedType), {T: ok}}}
